@@ -12,6 +12,7 @@ import (
 
 	"github.com/cbeuw/Cloak/internal/vrt"
 	"github.com/cbeuw/Cloak/internal/vrt/sync"
+	"github.com/cbeuw/Cloak/internal/vrt/time"
 	"github.com/cbeuw/Cloak/internal/vx"
 )
 
@@ -331,6 +332,10 @@ func init() {
 				jobs = append(jobs, vx.Job{Scenario: "mux.dgram", Params: vx.P("streams", "1", "sizes", "3,5", "method", m), Bound: b(1, 2), Weight: 4})
 			}
 		}
+		jobs = append(jobs, vx.Job{Scenario: "mux.dgramreuse", Params: vx.P("pool", "recycle"), Bound: b(1, 2), Weight: 3},
+			vx.Job{Scenario: "mux.dgramreuse", Bound: b(1, 2), Weight: 3},
+			vx.Job{Scenario: "dgram.deadline", Bound: b(2, 3), Weight: 3},
+			vx.Job{Scenario: "dgram.deadline", Params: vx.P("delay", "1", "pool", "recycle"), Bound: b(2, 3), Weight: 3})
 		jobs = append(jobs, vx.Job{Scenario: "udp.route", Weight: 6})
 		jobs = append(jobs, vx.Job{Scenario: "udp.route", Params: vx.P("sameport", "1"), Weight: 5})
 		for i := range jobs {
@@ -338,4 +343,110 @@ func init() {
 		}
 		return jobs
 	})
+}
+
+// C14 driver (d): streams come and go. A datagram stream is used, closed by the sender, and its reader
+// keeps calling Read after the end-of-stream error (twice more); two streams opened afterwards each
+// carry their own datagrams, read in the reverse of their arrival order. Run with recycling pools.
+func init() {
+	vx.Register(&vx.Scenario{Name: "mux.dgramreuse", Prop: "C14", Run: func(c *vx.Ctx) *vx.Report {
+		sc := &vrt.Scenario{
+			Opt:      vrt.Options{RandInt: chooseConnOpt(), Delay: true},
+			Classify: deadlockIs("exactly-once: a datagram never arrived (reader blocked forever)"),
+			Main: func() {
+				r := newMuxRig(rigCfg{conns: 1, unit: 256, unordered: true})
+				buf := make([]byte, 300)
+				for round := 0; round < c.PI("rounds", 2); round++ {
+					st, err := r.cli.OpenStream()
+					if err != nil {
+						vrt.Fail("no-error-on-healthy-session", "OpenStream: %v", err)
+					}
+					st.Write(dgram(0, round, 7))
+					conn, err := r.srv.Accept()
+					if err != nil {
+						vrt.Fail("no-error-on-healthy-session", "Accept: %v", err)
+					}
+					if n, err := conn.Read(buf); err != nil || !bytes.Equal(buf[:n], dgram(0, round, 7)) {
+						vrt.Fail("whole-datagrams", "round %d: read %x, %v", round, buf[:n], err)
+					}
+					quiesce()
+					st.Close()
+					quiesce()
+					for k := 0; k < 3; k++ { // the end-of-stream error, and a reader that asks again
+						if n, err := conn.Read(buf); err == nil {
+							vrt.Fail("whole-datagrams", "round %d: Read %d after the stream was closed returned %d bytes", round, k, n)
+						}
+					}
+				}
+				// two fresh streams, datagrams both ways, read in reverse order of arrival
+				var cs, ss [2]*Stream
+				for i := 0; i < 2; i++ {
+					cs[i], _ = r.cli.OpenStream()
+					cs[i].Write(dgram(i+1, 0, 5+i))
+					conn, err := r.srv.Accept()
+					if err != nil {
+						vrt.Fail("no-error-on-healthy-session", "Accept: %v", err)
+					}
+					ss[i] = conn.(*Stream)
+				}
+				quiesce()
+				for i := 0; i < 2; i++ {
+					cs[i].Write(dgram(i+1, 1, 9+i))
+					ss[i].Write(dgram(i+1, 2, 11+i))
+				}
+				quiesce()
+				for i := 1; i >= 0; i-- {
+					for k, want := range [][]byte{dgram(i+1, 0, 5+i), dgram(i+1, 1, 9+i)} {
+						if n, err := ss[i].Read(buf); err != nil || !bytes.Equal(buf[:n], want) {
+							vrt.Fail("stream-isolation", "server side of stream %d, datagram %d: read %x, %v; the peer wrote %x", i, k, buf[:n], err, want)
+						}
+					}
+					if n, err := cs[i].Read(buf); err != nil || !bytes.Equal(buf[:n], dgram(i+1, 2, 11+i)) {
+						vrt.Fail("stream-isolation", "client side of stream %d: read %x, %v; the peer wrote %x", i, buf[:n], err, dgram(i+1, 2, 11+i))
+					}
+				}
+				vrt.Observe("ok")
+			},
+		}
+		return vx.RunSched(c, sc, sigOf("C14"))
+	}})
+
+	// (e) a datagram that arrives just as a reader's deadline expires: the Read either returns it or
+	// times out - and then the next Read returns it. Both orders of "deadline" and "arrival" at the same
+	// instant are explored.
+	vx.Register(&vx.Scenario{Name: "dgram.deadline", Prop: "C14", Run: func(c *vx.Ctx) *vx.Report {
+		sc := &vrt.Scenario{
+			Opt:      vrt.Options{RandInt: chooseConnOpt(), Delay: c.P("delay", "0") == "1", HorizonNs: int64(60 * time.Second)},
+			Classify: deadlockIs("exactly-once: a datagram never arrived (reader blocked forever)"),
+			Main: func() {
+				r := newMuxRig(rigCfg{conns: 1, unit: 256, unordered: true})
+				st, _ := r.cli.OpenStream()
+				st.Write(dgram(0, 0, 3))
+				conn, err := r.srv.Accept()
+				if err != nil {
+					vrt.Fail("no-error-on-healthy-session", "Accept: %v", err)
+				}
+				buf := make([]byte, 64)
+				conn.Read(buf)
+				d := 150 * time.Millisecond
+				off := []time.Duration{-time.Millisecond, 0, time.Millisecond}[vrt.Choose(3, "arrival-vs-deadline")]
+				vrt.Go("sender", func() {
+					time.Sleep(d + off)
+					st.Write(dgram(0, 1, 6))
+				})
+				conn.SetReadDeadline(time.Now().Add(d))
+				n, err := conn.Read(buf)
+				if err != nil {
+					// timed out: the datagram is still to come (or has just come) and must be readable now
+					conn.SetReadDeadline(time.Now().Add(10 * time.Second))
+					n, err = conn.Read(buf)
+				}
+				if err != nil || !bytes.Equal(buf[:n], dgram(0, 1, 6)) {
+					vrt.Fail("exactly-once", "a datagram arrived %v relative to the first Read's deadline; the reads returned %x, %v", off, buf[:n], err)
+				}
+				vrt.Observe("delivered")
+			},
+		}
+		return vx.RunSched(c, sc, sigOf("C14"))
+	}})
 }
